@@ -27,13 +27,16 @@ var (
 	CmpSymbol  = compareFuncForSymbol()
 	HashSymbol = hashFuncForSymbol()
 
+	// A HashFunc created by the hash package keeps a hasher and is not safe for concurrent use.
+	// HashTerminal and HashNonTerminal create one for every call, so that they can be used from different goroutines.
+
 	EqTerminal   = generic.NewEqualFunc[Terminal]()
 	CmpTerminal  = generic.NewCompareFunc[Terminal]()
-	HashTerminal = hash.HashFuncForString[Terminal](nil)
+	HashTerminal = func(t Terminal) uint64 { return hash.HashFuncForString[Terminal](nil)(t) }
 
 	EqNonTerminal   = generic.NewEqualFunc[NonTerminal]()
 	CmpNonTerminal  = generic.NewCompareFunc[NonTerminal]()
-	HashNonTerminal = hash.HashFuncForString[NonTerminal](nil)
+	HashNonTerminal = func(n NonTerminal) uint64 { return hash.HashFuncForString[NonTerminal](nil)(n) }
 )
 
 // Symbol represents a grammar symbol (terminal or non-terminal).
@@ -68,10 +71,9 @@ func compareFuncForSymbol() generic.CompareFunc[Symbol] {
 
 // hashFuncForSymbol creates a HashFunc for hashing symbols.
 func hashFuncForSymbol() hash.HashFunc[Symbol] {
-	h := fnv.New64()
-
 	return func(s Symbol) uint64 {
-		h.Reset()
+		// A hasher per call, so that the function is safe for concurrent use.
+		h := fnv.New64()
 		_, _ = WriteSymbol(h, s) // Hash.Write never returns an error
 		return h.Sum64()
 	}
